@@ -195,6 +195,53 @@ fn scripted(seed: u64, jitter: u64, rep: &Report) -> Result<(), String> {
             wit(&mut cell),
         );
     }
+    // ---- Phase K: X is in the middle of an autocommit COPY ... FROM STDIN (it holds its server, no
+    // transaction block): a cancel with X's key must reach X's own server session
+    {
+        x.send(&proto::query(&format!("COPY t FROM STDIN {}", tag("X", "X.k1", "")))).map_err(|e| e.to_string())?;
+        let mut got_g = false;
+        for _ in 0..20 {
+            match x.read_msg(3000) {
+                Ok(m) if m.typ == b'G' => {
+                    got_g = true;
+                    break;
+                }
+                Ok(_) => {}
+                Err(e) => return Err(format!("X waiting for CopyInResponse: {:?}", e)),
+            }
+        }
+        if !got_g {
+            return Err("X never got CopyInResponse".into());
+        }
+        x.send(&proto::copy_data(b"1\tone\n")).map_err(|e| e.to_string())?;
+        sleep_ms(20 + rng.below(30));
+        let n0 = cell.log.len();
+        send_cancel(&addr, x.pid, x.key).map_err(|e| e.to_string())?;
+        rep.count("cancels_during_autocommit_copy_in", 1);
+        sleep_ms(200);
+        let cs = cancels_since(&cell, n0);
+        if cs.is_empty() {
+            rep.violation(
+                "C10|valid_cancel_not_delivered_to_own_server_session|state=autocommit_copy_from_stdin",
+                "X was streaming CopyData of an autocommit COPY FROM STDIN (it holds a server); a cancel with X's key reached no server",
+                wit(&mut cell),
+            );
+        } else {
+            rep.count("hits_on_own_session_during_copy_in", 1);
+        }
+        for c in &cs {
+            if c.3.as_deref() != Some("X") {
+                rep.violation(
+                    "C10|cancel_hit_session_not_running_requesters_statement",
+                    &format!("during X's COPY FROM STDIN a cancel with X's key arrived at a session of {:?}", c.3),
+                    wit(&mut cell),
+                );
+            }
+        }
+        x.send(&proto::copy_fail("stop")).map_err(|e| e.to_string())?;
+        let _ = x.read_until_ready(5000).map_err(|(m, e)| format!("X after CopyFail: {:?} {}", e, summarize(&m)))?;
+        sleep_ms(30);
+    }
     // ---- Phase I/J: X gives its server back by a path on which no ReadyForQuery(idle) comes from the
     // server (a lone Sync answered by the pooler; the idle-in-transaction timeout); afterwards Y
     // runs on that server and X's key must be dead
